@@ -145,6 +145,9 @@ func genHaulTrace(r *RNG, mode string, probes bool) *Trace {
 	}
 	bc := spec.defaults()
 	fam := r.pickStr("copyback", "copyback", "copyback256", "runs", "periodic", "iid4", "zeroheavy", "tandem")
+	if wide && r.Chance(0.4) {
+		fam = "bigrecords"
+	}
 	t := &Trace{World: "parser", P: &spec, Input: genInput(r, n, fam)}
 	t.Note = fmt.Sprintf("volume wide=%v family=%s n=%d", wide, fam, n)
 	bl := maxInt(1, bc.BlockSize)
@@ -702,6 +705,9 @@ func init() {
 			// (a Decoder splits them; a DecoderBuffer refuses what cannot fit,
 			// which leaves the stream unchanged); sequences still fit
 			g.bigLits = run%3 == 1
+			if run%1597 == 11 || run%1597 == 811 {
+				g.geomClass, g.nOps = "wide", 40 // volume stratum
+			}
 			if run%4 == 3 {
 				// stratum with a partially accepting / failing writer: "each byte
 				// once and in order" must also hold when WriteTo/Flush is retried
@@ -740,6 +746,9 @@ func init() {
 	register(&Prop{ID: "C17",
 		Gen: func(r *RNG, tier string, run int) *Trace {
 			g := dgen{nOps: 60, sizes: "any", malformed: 0.1, readBias: 9, resetW: 1, firstFault: -1}
+			if run%1597 == 11 {
+				g.geomClass, g.nOps = "wide", 40 // volume stratum
+			}
 			if run%4 == 3 {
 				// calls stopped early by a writer error (also inside the chunked
 				// Write of oversize trailing literals): counts must still be exact
